@@ -539,7 +539,7 @@ Proof.
   intros k v v' tv H. unfold var_transform_s in H.
   destruct (v_weak v) eqn:Hw; [discriminate | ].
   destruct (v_has_dist v) eqn:Hd; cbn in H; [ | discriminate].
-  destruct k as [[ | ] | [ | ] | | ]; try discriminate;
+  destruct k as [[ | ] | [ | ] | | | ]; try discriminate;
     try (inversion H; subst; auto; fail).
   destruct (v_default v); [ | discriminate]. inversion H; subst; auto.
 Qed.
@@ -551,7 +551,7 @@ Proof.
   intros k v v' tv H. unfold gb_transform_s in H.
   destruct (v_weak v) eqn:Hw; [discriminate | ].
   destruct (v_has_dist v) eqn:Hd; cbn in H; [ | discriminate].
-  destruct k as [[ | ] | [ | ] | | ]; try discriminate;
+  destruct k as [[ | ] | [ | ] | | | ]; try discriminate;
     try (inversion H; subst; auto; fail).
   destruct (v_default v); [ | discriminate]. inversion H; subst; auto.
 Qed.
@@ -1045,3 +1045,92 @@ Proof.
                 (2, 1, ln 1) [tt; tt] [bScale 2; bExp] eq_refl) as [dk [_ [_ [Hup _]]]].
     apply Hup.
 Qed.
+
+(* ------------------------------------------------------------------------------------------ *)
+(* 8. refused transformations and continued use                                                 *)
+(* ------------------------------------------------------------------------------------------ *)
+(* everything but (possibly) the auto_transform flag is as before *)
+Definition same_but_auto (v1 v : var) : Prop :=
+  v_name v1 = v_name v /\ v_parameter v1 = v_parameter v /\ v_observed v1 = v_observed v
+  /\ v_has_dist v1 = v_has_dist v /\ v_weak v1 = v_weak v /\ v_default v1 = v_default v
+  /\ (v_auto v1 = v_auto v \/ v_auto v1 = false).
+
+Lemma same_but_auto_refl : forall v, same_but_auto v v.
+Proof. intro v. unfold same_but_auto. repeat split; auto. Qed.
+
+Lemma same_but_auto_clear : forall v, same_but_auto (clear_auto v) v.
+Proof. intro v. unfold same_but_auto; cbn. repeat split; auto. Qed.
+
+Lemma same_but_auto_trans : forall a b c, same_but_auto a b -> same_but_auto b c -> same_but_auto a c.
+Proof.
+  intros a b c (H1 & H2 & H3 & H4 & H5 & H6 & H7) (G1 & G2 & G3 & G4 & G5 & G6 & G7).
+  unfold same_but_auto. repeat split; try congruence.
+  destruct H7 as [H7 | H7]; [ | right; exact H7].
+  destruct G7 as [G7 | G7]; [left | right]; congruence.
+Qed.
+
+Lemma refusal_state_same : forall vp e v, same_but_auto (refusal_state vp e v) v.
+Proof.
+  intros vp e v. unfold refusal_state.
+  destruct vp, e; auto using same_but_auto_refl, same_but_auto_clear.
+Qed.
+
+(* a refused call hands out no new variable and leaves the variable as it was: name, parameter and
+   observed flags, distribution, strength untouched (auto_transform may have been switched off) *)
+Theorem refused_transform_is_noop : forall vp k v e,
+  transform_s vp k v = inl e ->
+  attempt_s vp k v = (refusal_state vp e v, None)
+  /\ same_but_auto (refusal_state vp e v) v.
+Proof.
+  intros vp k v e H. unfold attempt_s. rewrite H. split; [reflexivity | apply refusal_state_same].
+Qed.
+
+(* the entry points do not read the auto_transform flag *)
+Lemma transform_s_same : forall vp k v1 v, same_but_auto v1 v -> transform_s vp k v1 = transform_s vp k v.
+Proof.
+  intros vp k [n1 p1 o1 h1 w1 a1 d1] [n p o h w a d] (H1 & H2 & H3 & H4 & H5 & H6 & _).
+  cbn in H1, H2, H3, H4, H5, H6. subst. reflexivity.
+Qed.
+
+Lemma history_refused : forall ks v v1,
+  history_s ks v = (v1, None) -> same_but_auto v1 v.
+Proof.
+  induction ks as [ | [vp k] rest IH]; intros v v1 H; cbn in H.
+  - inversion H; subst. apply same_but_auto_refl.
+  - unfold attempt_s in H. destruct (transform_s vp k v) as [e | [v' tv]] eqn:Ht.
+    + apply (same_but_auto_trans _ (refusal_state vp e v)); [apply IH; exact H | apply refusal_state_same].
+    + discriminate.
+Qed.
+
+Lemma history_app : forall ks l v v1,
+  history_s ks v = (v1, None) -> history_s (ks ++ l) v = history_s l v1.
+Proof.
+  induction ks as [ | [vp k] rest IH]; intros l v v1 H; cbn in H |- *.
+  - inversion H; subst. reflexivity.
+  - destruct (attempt_s vp k v) as [v2 [tv | ]] eqn:Ha; [discriminate | ].
+    apply IH. exact H.
+Qed.
+
+(* any number of refused calls followed by a call that would have been accepted at once: the outcome is
+   the outcome of that call alone - the parameter flag moves to the new variable *)
+Theorem rejected_then_correct : forall ks v v1 vp k v' tv,
+  history_s ks v = (v1, None) ->
+  transform_s vp k v = inr (v', tv) ->
+  history_s (ks ++ [(vp, k)]) v = (v', Some tv)
+  /\ transform_s vp k v1 = inr (v', tv)
+  /\ flags_ok v v' tv.
+Proof.
+  intros ks v v1 vp k v' tv Hh Ht.
+  pose proof (history_refused ks v v1 Hh) as Hs.
+  pose proof (transform_s_same vp k v1 v Hs) as He. rewrite Ht in He.
+  split; [ | split; [exact He | ]].
+  - rewrite (history_app ks [(vp, k)] v v1 Hh). cbn. unfold attempt_s. rewrite He. reflexivity.
+  - apply (flags k v v' tv). unfold transform_s in Ht. destruct vp; [left | right]; exact Ht.
+Qed.
+
+Example ex_rejected_then_correct :
+  history_s [(true, KInst true); (true, KClsBad); (true, KOther); (true, KCls false); (false, KOther);
+             (true, KCls true)] ex_sigma
+  = (mkVar "sigma" false false false true false false,
+     Some (mkVar "sigma_transformed" true false true false false true)).
+Proof. reflexivity. Qed.
